@@ -76,6 +76,10 @@ Clause ==
     ELSE IF path # <<>> \/ Cardinality(seen) # NNodes(tid) - 1
          THEN "node stored in an attribute never yielded"
     ELSE IF Trace[tid].walk2 # Walk(tid) THEN "second walk differs"
+    \* a tree of the same text on which the first iterations ever made were
+    \* abandoned ones (extract, a filter and a walk that were not exhausted)
+    ELSE IF Trace[tid].walk3 # Walk(tid)
+    THEN "walk after abandoned iterations differs"
     ELSE IF ~FilterOK(tid) THEN "filter is not walk-then-select"
     ELSE IF ~ExtractOK(tid) THEN "extract is not the n-th match"
     ELSE "ok"
